@@ -101,6 +101,11 @@ def _run_module(workdir, modname, src, meta, per_condition_timeout):
                 res['notes'].append(f'CrossHair counterexample did not replay: {errors[0][:200]} / {detail}')
         elif confirmed:
             res['unsat'] = 1
+        elif any('Not confirmed' in t for t in texts):
+            # CrossHair ran out of its per-condition time budget without finding a counterexample:
+            # the harness was not explored exhaustively -> counted as NOT explored, never as a pass
+            res['status'] = 'timeout'
+            res['notes'].append('CrossHair: Not confirmed within the per-condition budget (not explored exhaustively)')
         else:
             res['status'] = 'inconclusive'
             res['notes'].append(f'CrossHair: {texts[:2] or out[-300:]}')
